@@ -2,7 +2,7 @@
 
 use crate::cssmodel::*;
 
-pub const SIMPLE_ATOMS: u64 = 6;
+pub const SIMPLE_ATOMS: u64 = 8;
 pub const FUNCS: &[&str] = &[":not(", ":is(", ":where(", ":has(", "::slotted(", ":nth-child("];
 pub const COMBINATORS: &[&str] = &[" ", ">", "+", "~"];
 
@@ -39,6 +39,15 @@ fn push_simple(sh: &mut Sheet, k: u64, ctx: &str) {
             sh.plain("hover", ctx);
         }
         5 => sh.plain("*", ctx),
+        // class names that already look prefixed (for the prefixes "p" and "")
+        6 => {
+            sh.plain(".", ctx);
+            sh.push("p--q", Role::Class, ctx);
+        }
+        7 => {
+            sh.plain(".", ctx);
+            sh.push("--x", Role::Class, ctx);
+        }
         _ => unreachable!(),
     }
 }
@@ -378,7 +387,7 @@ fn is_pm(k: &Kind) -> bool {
 // ---------------------------------------------------------------------------------------------
 // white space / comment variants: insert a filler at gap g of a sheet
 
-pub const FILLERS: &[&str] = &["/*c*/", " ", "\n", " /*c*/ ", "\t\n "];
+pub const FILLERS: &[&str] = &["/*c*/", " ", "\n", " /*c*/ ", "\t\n ", "/*c*/ ", " /*c*/"];
 
 /// Returns the sheet with `filler` inserted before piece `g` (as comment / blank pieces that carry
 /// no meaning). The caller must discard the variant when it does not tokenise as intended.
@@ -397,6 +406,14 @@ pub fn with_filler(sh: &Sheet, g: usize, filler: usize) -> Sheet {
                     out.push(" ", Role::Ws { must: false }, &ctx);
                 }
                 4 => out.push("\t\n ", Role::Ws { must: false }, &ctx),
+                5 => {
+                    out.push("/*c*/", Role::Comment, &ctx);
+                    out.push(" ", Role::Ws { must: false }, &ctx);
+                }
+                6 => {
+                    out.push(" ", Role::Ws { must: false }, &ctx);
+                    out.push("/*c*/", Role::Comment, &ctx);
+                }
                 _ => unreachable!(),
             }
         }
